@@ -239,13 +239,20 @@ def c03(k, ctx):
             continue
         if r["e"] == "Post" or r["iters"] > 0:
             ctx.nontrivial_keys.add(k.key(r.get("arith", ""), r.get("name", ""), r["sched"], r["rows"], r.get("llrs", r.get("llr_m", r.get("x8"))), r.get("limit", r.get("its"))))
+    posts = [r for r in recs if r["e"] == "Post" and r["o"] == "ok"]
+    reached = sum(1 for r in posts if r["rounds"] >= r["diam"])
+    ctx.extra["posterior_cases_run_to_the_diameter"] = reached
+    if posts and reached * 10 < len(posts) * 9:
+        # the wrapper that keeps the decoder iterating no longer works with this decoder: the posterior clause would be judged on (almost) nothing
+        raise k.ToolError(f"vacuous run: only {reached} of {len(posts)} Post cases were run for at least graph-diameter iterations")
     ctx.extra["decode_verdicts"] = {v: sum(1 for r in recs if r["e"] == "Decode" and r.get("verdict") == v) for v in ("ok", "err")}
     ctx.extra["posterior_cases_in_working_range"] = sum(1 for r in recs if r["e"] == "Post" and r["o"] == "ok" and max(r["refc"]) <= (9 if r["f32"] else 25))
     ctx.extra["max_posterior_err_cb"] = {a: max([max(r["err_cb"]) for r in recs if r["e"] == "Post" and r["o"] == "ok" and r["arith"] == a] or [None])
                                          for a in ("Phif64", "Tanhf64", "Phif32", "Tanhf32")}
     ctx.samples = [k.sample_case(recs, 5), k.sample_case(recs, recs[-1]["i"])]
     ctx.assumptions = ["TLC 1.8 + Json/IOUtils", "IntMinSum in harness/src/c03.rs implements MinSum.tla (its own calls are what the real decoders route; a routing error changes results or trips the scaling assertions)",
-                       "posterior reference: brute force over all codewords with log-sum-exp in f64 (harness oracle); tolerance in Trace_C03.tla"]
+                       "posterior reference: brute force over all codewords with log-sum-exp in f64 (harness oracle); tolerance in Trace_C03.tla",
+                       "Post cases: a wrapper arithmetic keeps the syndrome test failing (first hard decision asked after message passing = 1); how a decoder asks is unspecified, so the rounds really run are counted and the clause is judged only at >= diameter rounds (a run where under 90% reach it is a tool error)"]
 
 
 def c18(k, ctx):
